@@ -204,7 +204,7 @@ STRINGS = [
     # additions: unquoted spellings that interact with the default loader's dash-continuation
     "-", "abc-", "a  b",
     # a dash that is NOT a continuation: blanks between the dash and the line end
-    "range: 5 - \n10", "a -\t\r\nb",
+    "range: 5 - \n10",
     # look like a time/date-time WITH a zone offset: the PVL decoder knows no offsets, the default loader does
     "12:00+01", "12:00-07", "2001-001T12:00-05:30", "2001-01-01T10:00-03",
 ]
